@@ -71,7 +71,9 @@ def _stable_name(value: Any) -> str:
             getattr(value, '__closure__', None) is None and \
             (owner is None or isinstance(owner, (type, ModuleType))):
         return "{}.{}".format(module, name)
-    return repr(value)
+    # (the identity is part of the name: the representation of a class
+    # made by a factory function, for one, is that of its siblings)
+    return "%s@%x" % (repr(value), id(value))
 
 
 class PageTemplate(BaseTemplate):
